@@ -273,6 +273,11 @@ def harness_main(c):
     # ghosts chosen by the environment
     for ct, g in c.ghosts:
         L.append("  { %s t; %s = %s; }" % (ct, g, nd(ct)))
+    L.append("#ifdef SBV_SMALL_WITNESS /* counterexample search only: prefer small buffers so that the witness can be replayed natively */")
+    for ct, g in c.ghosts:
+        if ct.strip() == "unsigned long":
+            L.append("  __CPROVER_assume(%s <= 4096);" % g)
+    L.append("#endif")
     nbuf = sum(1 for it in c.pre if isinstance(it, BUF))
     for k in range(nbuf):
         for i in range(WIT_BYTES):
@@ -377,18 +382,32 @@ def run_contract(c, tier="quick", keep=False):
                 r.backend = name
                 r.props = res
                 if any(p.get("status") == "FAILURE" and "must FAIL" not in p.get("description", "") and not p.get("description", "").startswith("pointer relation:") and not _is_canary_post(c, p) for p in res):
-                    # re-run once with traces for counterexample extraction (statuses stay those of the first run)
-                    pr2 = _cbmc(tmo * 2, flags + bflags, wd, trace=True)
-                    if pr2.returncode in (0, 10):
+                    # re-run with traces for counterexample extraction (statuses stay those of the first run):
+                    # first restricted to small buffers (replayable witnesses), then unrestricted for what is left
+                    def attach(prx, override=False):
+                        if os.environ.get("SBV_DEBUG"):
+                            sys.stderr.write("attach rc=%s len=%d err=%s\n" % (prx.returncode, len(prx.stdout), prx.stderr[-300:]))
+                        if prx.returncode not in (0, 10):
+                            return
                         try:
-                            for item in json.loads(pr2.stdout):
+                            for item in json.loads(prx.stdout):
                                 if isinstance(item, dict) and "result" in item:
-                                    tr = {p.get("property"): p.get("trace") for p in item["result"] if p.get("trace")}
+                                    tr = {p.get("property"): p.get("trace") for p in item["result"] if p.get("trace") and p.get("status") == "FAILURE"}
                                     for p in r.props:
-                                        if p.get("property") in tr:
+                                        if p.get("property") in tr and p.get("status") == "FAILURE" and (override or "trace" not in p):
                                             p["trace"] = tr[p.get("property")]
-                        except Exception:
-                            pass
+                                            if os.environ.get("SBV_DEBUG"):
+                                                sys.stderr.write("  attached %s: %s\n" % (p.get("property")[-20:], {k: v.get("data") for k, v in witness_from_trace(p["trace"]).items() if k in ("sbv_n", "sbv_c")}))
+                        except Exception as e:
+                            sys.stderr.write("trace attach failed: %r\n" % (e,))
+                    try:
+                        sh(["goto-cc", "-DSBV_CPROVER", "-DSBV_SMALL_WITNESS", "-o", os.path.join(wd, "s_a.gb"), src], timeout=300)
+                        sh([x if x != os.path.join(wd, "a.gb") else os.path.join(wd, "s_a.gb") for x in cmd[:-1]] + [os.path.join(wd, "s_b.gb")], timeout=600)
+                        attach(_cbmc(tmo * 2, flags + bflags, wd, trace=True, gb="s_b.gb"), override=True)
+                    except (ToolError, subprocess.TimeoutExpired) as e:
+                        sys.stderr.write("small-witness search failed for %s: %s\n" % (c.ident(), str(e)[:500]))
+                    if any(p.get("status") == "FAILURE" and "trace" not in p and not _is_canary_post(c, p) and "must FAIL" not in p.get("description", "") for p in r.props):
+                        attach(_cbmc(tmo * 2, flags + bflags, wd, trace=True))
                 break
             last = "%s: exit %d %s" % (name, pr.returncode, (pr.stdout[-300:] + pr.stderr[-300:]).replace("\n", " "))
         else:
@@ -407,8 +426,8 @@ def run_contract(c, tier="quick", keep=False):
     return r
 
 
-def _cbmc(tmo, flags, wd, trace):
-    return subprocess.run(["bash", "-c", "ulimit -v 12000000; exec timeout %d cbmc %s --json-ui %s %s" % (tmo, " ".join(flags), "--trace" if trace else "", os.path.join(wd, "b.gb"))],
+def _cbmc(tmo, flags, wd, trace, gb="b.gb"):
+    return subprocess.run(["bash", "-c", "ulimit -v 12000000; exec timeout %d cbmc %s --json-ui %s %s" % (tmo, " ".join(flags), "--trace" if trace else "", os.path.join(wd, gb))],
                           stdout=subprocess.PIPE, stderr=subprocess.PIPE, text=True, errors="replace")
 
 
@@ -555,6 +574,8 @@ def build_replay(c, vals, path):
     """emit native replay C file that constructs the state from `vals`, calls the REAL code through the root shim, and evaluates the ensures clauses"""
     u = c.unit
     root = c.fn.root
+    if root is None and c.fn.j.get("root"):
+        root = c.fn  # the contract is on a lemma root itself
     if root is None:
         # find a root forwarding to this function
         for f in u.functions():
@@ -603,7 +624,7 @@ def build_replay(c, vals, path):
         if isinstance(it, BUF):
             L.append("  { size_t n_ = (size_t)(%s); if(n_ > (1UL<<26)) { printf(\"REPLAY-SKIP buffer too large\\n\"); return 3; } char* b_ = malloc(n_ ? n_ : 1); if(!n_) { b_ = (char*)realloc(b_, 1); } "
                      "for(size_t i_ = 0; i_ < n_; i_++) b_[i_] = i_ < %d ? sbv_w%d[i_] : 0; "
-                     "if(!n_) { free(b_); b_ = malloc(0); } %s = (%s)b_; }" % (WIT_BYTES, k, it.ptr, it.cast))
+                     "if(!n_) { free(b_); b_ = malloc(0); } %s = (%s)b_; }" % (it.length, WIT_BYTES, k, it.ptr, it.cast))
             k += 1
         elif isinstance(it, OBJ):
             L.append("  %s = calloc(1, sizeof(*(%s)));" % (it.ptr, it.ptr))
